@@ -2,6 +2,7 @@ package checks
 
 import (
 	"fmt"
+	"reflect"
 	"strings"
 
 	"verifmc/fw"
@@ -118,6 +119,7 @@ func c05Objects() []c05Object {
 			objs = append(objs, c05Object{name: fmt.Sprintf("%s-tokenizer%s", kind, optStr(o)), pool: c05TokPools[kind], make: func() func(string) string {
 				t := newTokenizer(kind)
 				setOptions(t, o)
+				c05LastInst = []interface{}{t}
 				return func(in string) string {
 					r := tokenizeOn(t, in)
 					if r.failed() {
@@ -130,6 +132,7 @@ func c05Objects() []c05Object {
 	}
 	objs = append(objs, c05Object{name: "ExpressionParser", pool: c05ExprPool, make: func() func(string) string {
 		p := parsers.NewExpressionParser()
+		c05LastInst = []interface{}{p}
 		return func(in string) string {
 			return safeObs(func() string {
 				err := p.ParseString(in)
@@ -139,6 +142,7 @@ func c05Objects() []c05Object {
 	}})
 	objs = append(objs, c05Object{name: "ExpressionCalculator", pool: c05ExprPool, make: func() func(string) string {
 		calc := calculator.NewExpressionCalculator()
+		c05LastInst = []interface{}{calc}
 		return func(in string) string {
 			return safeObs(func() string {
 				err := calc.SetExpression(in)
@@ -156,6 +160,7 @@ func c05Objects() []c05Object {
 	}})
 	objs = append(objs, c05Object{name: "MustacheParser", pool: c05TmplPool, make: func() func(string) string {
 		p := mparsers.NewMustacheParser()
+		c05LastInst = []interface{}{p}
 		return func(in string) string {
 			return safeObs(func() string {
 				err := p.ParseString(in)
@@ -165,6 +170,7 @@ func c05Objects() []c05Object {
 	}})
 	objs = append(objs, c05Object{name: "MustacheTemplate", pool: c05TmplPool, make: func() func(string) string {
 		t := mustache.NewMustacheTemplate()
+		c05LastInst = []interface{}{t}
 		return func(in string) string {
 			return safeObs(func() string {
 				err := t.SetTemplate(in)
@@ -180,8 +186,152 @@ func c05Objects() []c05Object {
 			})
 		}
 	}})
+	// a template object that is cleared after every input, rendering with one map the caller keeps
+	objs = append(objs, c05Object{name: "MustacheTemplate+Clear+callers-map", pool: c05TmplPool, make: func() func(string) string {
+		t := mustache.NewMustacheTemplate()
+		shared := map[string]string{"a": "v", "b": "w", "name": "N"}
+		c05LastInst = []interface{}{t}
+		return func(in string) string {
+			return safeObs(func() string {
+				t.SetDefaultVariables(shared) // Clear() drops the object's defaults; the caller hands the map in again
+				err := t.SetTemplate(in)
+				out := "set=" + errStr(err)
+				if err == nil {
+					out += safeObs(func() string { v, e := t.Evaluate(); return fmt.Sprintf(" eval=%q/%s", v, errStr(e)) })
+					out += safeObs(func() string {
+						v, e := t.EvaluateWithVariables(shared)
+						return fmt.Sprintf(" evalvars=%q/%s", v, errStr(e))
+					})
+				}
+				t.Clear()
+				out += safeObs(func() string {
+					v, e := t.EvaluateWithVariables(shared)
+					return fmt.Sprintf(" after-clear=%q/%s values a=%q b=%q name=%q", v, errStr(e), shared["a"], shared["b"], shared["name"])
+				})
+				return out
+			})
+		}
+	}})
 	return objs
 }
+
+// ---- writes into containers handed out by one instance must not reach another, fresh instance
+
+// c05LastInst: the library object(s) behind the most recently made c05Object
+var c05LastInst []interface{}
+
+// scribbleGetters calls every exported zero-argument, single-result method of obj; slices and maps it
+// hands out are overwritten in place, collections and states are emptied through their own Clear* methods.
+func scribbleGetters(obj interface{}, depth int) int {
+	n := 0
+	v := reflect.ValueOf(obj)
+	if !v.IsValid() || (v.Kind() == reflect.Ptr && v.IsNil()) {
+		return 0
+	}
+	t := v.Type()
+	for i := 0; i < t.NumMethod(); i++ {
+		m := t.Method(i)
+		mt := m.Type
+		if mt.NumIn() != 1 || mt.NumOut() != 1 {
+			continue
+		}
+		name := m.Name
+		if name == "NextToken" || name == "ReadNextToken" || name == "HasNextToken" || strings.HasPrefix(name, "Clear") || strings.HasPrefix(name, "Evaluate") || strings.HasPrefix(name, "New") || name == "Clone" || name == "String" {
+			continue
+		}
+		var out reflect.Value
+		if pv := fw.Try(func() { out = v.Method(i).Call(nil)[0] }); pv != nil || !out.IsValid() {
+			continue
+		}
+		for out.Kind() == reflect.Interface && !out.IsNil() {
+			out = out.Elem()
+		}
+		switch out.Kind() {
+		case reflect.Slice:
+			for k := 0; k < out.Len(); k++ {
+				e := out.Index(k)
+				if !e.CanSet() {
+					continue
+				}
+				switch e.Kind() {
+				case reflect.Int32, reflect.Int, reflect.Int64:
+					e.SetInt('~')
+				case reflect.String:
+					e.SetString("SCRIBBLED")
+				default:
+					e.Set(reflect.Zero(e.Type()))
+				}
+				n++
+			}
+		case reflect.Map:
+			for _, k := range out.MapKeys() {
+				if out.Type().Elem().Kind() == reflect.String {
+					out.SetMapIndex(k, reflect.ValueOf("SCRIBBLED").Convert(out.Type().Elem()))
+				} else {
+					out.SetMapIndex(k, reflect.Value{})
+				}
+				n++
+			}
+		case reflect.Ptr:
+			if out.IsNil() || depth <= 0 {
+				continue
+			}
+			// range switches of character-class states: disable everything
+			for k := 0; k < out.NumMethod(); k++ {
+				ft := out.Method(k).Type()
+				if strings.HasPrefix(out.Type().Method(k).Name, "Set") && ft.NumIn() == 3 && ft.In(0).Kind() == reflect.Int32 && ft.In(1).Kind() == reflect.Int32 && ft.In(2).Kind() == reflect.Bool {
+					f := out.Method(k)
+					fw.Try(func() {
+						f.Call([]reflect.Value{reflect.ValueOf(rune(0)), reflect.ValueOf(rune(0xfffe)), reflect.ValueOf(false)})
+					})
+					n++
+				}
+			}
+			// symbol tables: register further symbols with odd token types
+			if f := out.MethodByName("Add"); f.IsValid() && f.Type().NumIn() == 2 && f.Type().In(0).Kind() == reflect.String && f.Type().In(1).Kind() == reflect.Int {
+				for _, sym := range []string{"=>", "<", "<=", "**", ",", "{{", "a"} {
+					sym := sym
+					fw.Try(func() { f.Call([]reflect.Value{reflect.ValueOf(sym), reflect.ValueOf(int(tokenizers.Word))}) })
+					n++
+				}
+			}
+			for _, cm := range []string{"Clear", "ClearWordChars", "ClearWhitespaceChars", "ClearValues"} {
+				if f := out.MethodByName(cm); f.IsValid() && f.Type().NumIn() == 0 {
+					fw.Try(func() { f.Call(nil) })
+					n++
+				}
+			}
+			n += scribbleGetters(out.Interface(), depth-1)
+		}
+	}
+	return n
+}
+
+func c05Scribble(c *fw.Ctx, ob c05Object, in string) {
+	mk := ob.name + "\x00" + in
+	if _, ok := c05FreshMemo[mk]; !ok {
+		c05FreshMemo[mk] = ob.make()(in)
+	}
+	first := c05FreshMemo[mk]
+	a := ob.make()
+	insts := c05LastInst
+	a(in)
+	n := 0
+	for _, x := range insts {
+		n += scribbleGetters(x, 2)
+	}
+	c.Eval(2)
+	if n > 0 {
+		c.Nontrivial()
+	}
+	now := ob.make()(in)
+	if now != first {
+		c.Violation("fresh-instance-affected-by-writes-through-another-instance:"+ob.name, "%s: instance A was fed %q, then every slice/map its getters hand out was overwritten and its collections/states cleared (%d writes); a NEW instance fed %q now gives\n      now:   %s\n      first: %s", ob.name, in, n, in, now, first)
+	}
+	c.Outcome(fmt.Sprintf("%s:writes>0=%v", ob.name, n > 0))
+}
+
+var c05FreshMemo = map[string]string{}
 
 func c05RunSeq(c *fw.Ctx, ob c05Object, seq []int) {
 	step := ob.make()
@@ -191,6 +341,16 @@ func c05RunSeq(c *fw.Ctx, ob c05Object, seq []int) {
 		got := step(in)
 		want := ob.make()(in)
 		c.Eval(2)
+		// the fresh instance is itself compared with what a fresh instance of this kind gave for this
+		// input the first time this process asked: state shared through package-level variables would
+		// contaminate the reused and the fresh instance alike and cancel out in the comparison below
+		mk := ob.name + "\x00" + in
+		if first, ok := c05FreshMemo[mk]; !ok {
+			c05FreshMemo[mk] = want
+		} else if first != want {
+			c.Violation("fresh-instance-depends-on-process-history:"+ob.name, "%s: a FRESH instance fed %q gives\n      now:   %s\n      first: %s\n      (this worker process fed other instances %q since)", ob.name, in, want, first, hist)
+			return
+		}
 		if got != want {
 			sig := "history-dependent:" + ob.name
 			if strings.Contains(got, "failed(") || strings.Contains(got, "panic(") {
@@ -595,8 +755,11 @@ func init() {
 	fw.Register(&fw.Check{
 		ID:    "C05",
 		Level: "model_checking",
-		Rule: "explicit operation histories on ONE real instance of each of 12 object kinds (4 tokenizers x {no options, parser options}, ExpressionParser, ExpressionCalculator, MustacheParser, MustacheTemplate): every ordered pair (thorough: triple) of inputs from a pool with every registered multi-character symbol alone and next to its siblings, every token class, unterminated literals, malformed programs; " +
-			"after each step the full observation (tokens with positions / compiled program, variable names, error, values under two variable sets / rendering) must equal a freshly constructed instance's; plus every aborted iteration (SetReader, k fetches, abandon) followed by every input, and every pattern in {0,1,2}^m of HasNextToken queries before each fetch; the alternate entry points (ParseTokens / SetOriginalTokens on the instance's own token list, the ...FromExpression / FromTokens / FromString constructors, Clear(), the ...ToStrings tokenizer calls) must give what the main entry point gives on a fresh instance; one compiled expression under every history of <=3 (thorough 5) steps out of 5 evaluation calls (default variables, two collections, an empty one, explicit functions) and 5 variable replacements (remove+add, SetValue, Clear on a supplied collection and on the defaults), every value compared with a fresh calculator whose variables went through the replacements only; non-trivial = histories of >=2 steps",
+		// the first fresh-instance observation per input is the pristine reference: the hostile neighbour
+		// (decoy.go) only starts after the first cases of a shard have pinned them
+		LateNeighbour: true,
+		Rule: "explicit operation histories on ONE real instance of each of 13 object kinds (4 tokenizers x {no options, parser options}, ExpressionParser, ExpressionCalculator, MustacheParser, MustacheTemplate, MustacheTemplate cleared after every input and rendering with one caller-owned map): every ordered pair (thorough: triple) of inputs from a pool with every registered multi-character symbol alone and next to its siblings, every token class, unterminated literals, malformed programs; " +
+			"after each step the full observation (tokens with positions / compiled program, variable names, error, values under two variable sets / rendering) must equal a freshly constructed instance's; plus every aborted iteration (SetReader, k fetches, abandon) followed by every input, and every pattern in {0,1,2}^m of HasNextToken queries before each fetch; the alternate entry points (ParseTokens / SetOriginalTokens on the instance's own token list, the ...FromExpression / FromTokens / FromString constructors, Clear(), the ...ToStrings tokenizer calls) must give what the main entry point gives on a fresh instance; a new instance must be unaffected after every slice/map handed out by another instance's getters was overwritten and its collections and states were cleared (and, throughout, by whatever this process did before: the fresh-instance observation per input is pinned the first time it is made); one compiled expression under every history of <=3 (thorough 5) steps out of 5 evaluation calls (default variables, two collections, an empty one, explicit functions) and 5 variable replacements (remove+add, SetValue, Clear on a supplied collection and on the defaults), every value compared with a fresh calculator whose variables went through the replacements only; non-trivial = histories of >=2 steps",
 		Assume: []string{"an outcome that is identical on the fresh instance (including a panic) is not a history effect and is left to C03"},
 		Spaces: func(tier string) []fw.Space {
 			objs := c05Objects()
@@ -617,6 +780,12 @@ func init() {
 						}
 						return ob.name + " fed " + strings.Join(s, " then ")
 					}})
+			}
+			for _, ob := range objs {
+				ob := ob
+				sp = append(sp, fw.Space{Name: "scribbled-getters:" + ob.name, N: int64(len(ob.pool)),
+					Run:  func(c *fw.Ctx, i int64) { c05Scribble(c, ob, ob.pool[i]) },
+					Repr: func(i int64) string { return fmt.Sprintf("%s A fed %q, its getter results overwritten, then a new instance fed the same", ob.name, ob.pool[i]) }})
 			}
 			type ep struct{ kind, in string }
 			eps := []ep{}
